@@ -74,9 +74,9 @@ CHECKS = {
   technique="Lean 4 proof (sound effect checker + kernel evaluation on programs regenerated from the source) + correspondence on harvested calls"),
  "C14": dict(
   category="proof",
-  text="Lean 4 theorems at character level over a hand-written lexer/parser for the plan DSL (following the Lark grammar incl. its Earley/dynamic-lexer behaviour): parse_render (every operation re-parses from its expr to itself), produced_in_range/reparse_of_parsed (every operation the parser returns re-parses), multiplier semantics, layout_irrelevant_partial for the explicit good-layout class + layout_rejected/never_changes_commands for everything else, body/plan round trip. Number printing and YAML are hypotheses sampled per run. The model is compared with the real Lark parser on tens of thousands of generated texts; re-parsed plans are executed on the real engine.",
+  text="Lean 4 theorems at character level over a hand-written lexer/parser for the plan DSL (following the Lark grammar incl. its Earley/dynamic-lexer behaviour): parse_render (every operation re-parses from its expr to itself), produced_in_range/reparse_of_parsed/produced_times_finite/reparse_of_parsed_total (EVERY operation the parser returns, from any text, re-parses from its expr to itself, under the single number law 'a finite float prints as one number token and reads back'), multiplier semantics, layout_irrelevant_partial for the explicit good-layout class + layout_rejected/never_changes_commands for everything else, body/plan round trip. Number printing and YAML are hypotheses sampled per run. The model is compared with the real Lark parser on tens of thousands of generated texts; re-parsed plans are executed on the real engine.",
   design_ref="DESIGN.md §4 C14",
-  note="Trusted: Lean kernel + standard axioms; Lark's parsing algorithm and CPython float repr validated, not proved; known findings F13 (layout classes the grammar rejects) and F16 (non-finite time).",
+  note="Trusted: Lean kernel + standard axioms; Lark's parsing algorithm and CPython float repr validated, not proved; known finding F13 (layout classes the grammar rejects); F16 (a time literal overflowing to inf) was repaired (eae4625): the model rejects it as the code does, except inside an operation that a multiplier <= 0 then drops (skipped by the harness).",
   technique="Lean 4 proof on a re-implementation of the grammar + differential correspondence with Lark"),
  "C15": dict(
   category="proof",
